@@ -16,7 +16,7 @@ TIMEOUT = {"quick": 1500, "thorough": 8 * 3600}
 REQUIRED_REACH = ['launch_sim', 'Simulator.run', 'AttitudeEstimator.imu_callback', 'AttitudeEstimator.mag_callback', 'Publisher.publish', 'Logger.run']
 RULE = ("each case = one run of the packaged launch_sim (noise off, 30 simulated seconds, body rates up to 10 rad/s) with a random true "
         "attitude (angle 0..pi), gyro bias with every component |b| in [0.03,0.1] rad/s and random sign, estimator initialised from "
-        "measurements or started at zero, inclination +-1 rad, declination +-0.4 rad, dt_sim in {1/800,1/400}, dt_imu in "
+        "measurements or started at zero, inclination +-1 rad, declination +-0.4 rad (a quarter of the runs up to +-0.9), dt_sim in {1/800,1/400}, dt_imu in "
         "{1/400,1/250,1/200}, dt_mag in {1/100,1/50,1/20}, logger period in {1/200,1/100,0.013}, estimator rate limits, g, mag_str, parameters set in a random order; monitors: recording proxies around "
         "the simulator's sensor functions (oracle sensor model per call), subscribers on imu/mag/attitude topics (per message), "
         "offline checker on the returned log; non-trivial = every run (attitude and bias never zero); distinct = hashed run "
@@ -88,6 +88,8 @@ def one_run(ctx, launch, uros, msgs, rng, k):
         ang = rng.uniform(np.deg2rad(170), PI)
         r = np.tan(ang / 4) * np.array([np.cos(phi), np.sin(phi), rng.uniform(-0.05, 0.05)])
     incl, decl = rng.uniform(-1.0, 1.0), rng.uniform(-0.4, 0.4)
+    if rng.random() < 0.25:
+        decl = float(rng.choice([-1.0, 1.0]) * rng.uniform(0.4, 0.9))  # large declinations (polar regions): a heading offset like any other
     directed_steep = k == 0 and ctx.shard % 8 == 3
     steep = directed_steep or ((not flipped) and rng.random() < 0.12)
     flipped = flipped and not steep
